@@ -64,6 +64,15 @@ class HDict:
         return HDict(self.arr, self.dom)
 
 
+class HRec:
+    """python dict with constant string keys (keyword-argument bundles like Equality's `args`)"""
+    def __init__(self, items):
+        self.items = dict(items)
+
+    def clone(self):
+        return HRec(self.items)
+
+
 class ClassRef:
     def __init__(self, name, cf=None):
         self.name, self.cf = name, cf
@@ -285,6 +294,12 @@ class Exec:
             inner = _split_top(typ[typ.index("[") + 1:-1])
             items = [self.mk(t, f"{name}.{i}") for i, t in enumerate(inner)]
             return self.alloc(HTuple(items, is_tuple=typ.startswith("tuple[")))
+        if typ.startswith("rec["):
+            items = {}
+            for part in _split_top(typ[4:-1]):
+                k, t = part.split(":", 1)
+                items[k.strip()] = self.mk(t.strip(), f"{name}.{k.strip()}")
+            return self.alloc(HRec(items))
         if typ.startswith("dict["):
             arr = z3.Const(name + "!arr", z3.ArraySort(z3.StringSort(), Val))
             dom = z3.Const(name + "!dom", z3.ArraySort(z3.StringSort(), z3.BoolSort()))
@@ -321,7 +336,7 @@ class Exec:
                 if lk and lk[0] in ("method", "classmethod", "staticmethod"):
                     return ("boundmethod", ref, lk[1])
             path = f"{obj.path}.{attr}"
-            typ = self.types_lookup(path)
+            typ = self.types_lookup(path, obj, attr)
             if typ is not None:
                 v = self.mk(typ, path)
                 obj.fields[attr] = v
@@ -339,11 +354,16 @@ class Exec:
             raise OutsideSubset(f"contract {self.contract.ident} declares no type for {path}")
         raise OutsideSubset(f"attribute {attr} of {type(obj).__name__}")
 
-    def types_lookup(self, path):
+    def types_lookup(self, path, obj=None, attr=None):
         t = self.contract.types.get(path)
         if t is not None:
             return t
-        # inside an old() snapshot the same types apply
+        if obj is not None and self.contract.class_fields:
+            names = [c.name for c in obj.cf.mro] if obj.cf is not None else ([obj.clsname] if obj.clsname else [])
+            for nm in names:
+                t = self.contract.class_fields.get(nm, {}).get(attr)
+                if t is not None:
+                    return t
         return None
 
     def register_input(self, path, typ, v):
@@ -392,7 +412,7 @@ class Exec:
             if lk and lk[0] == "property":
                 raise PyRaise("AttributeError", f"can't set {attr}")
         path = f"{obj.path}.{attr}"
-        if attr not in obj.fields and self.types_lookup(path) is not None:
+        if attr not in obj.fields and self.types_lookup(path, obj, attr) is not None:
             # make sure the old value exists (for frame / old())
             self.get_attr(ref, attr)
         obj.fields[attr] = value
@@ -421,6 +441,8 @@ class Exec:
             if isinstance(o, HList):
                 return z3.Length(o.seq) > 0
             if isinstance(o, HTuple):
+                return z3.BoolVal(len(o.items) > 0)
+            if isinstance(o, HRec):
                 return z3.BoolVal(len(o.items) > 0)
             if isinstance(o, HDict):
                 raise OutsideSubset("truthiness of dict")
@@ -675,6 +697,11 @@ class Exec:
                 return z3.And(fits, z3.Contains(o.seq, z3.Unit(t)))
             if isinstance(o, HTuple):
                 return z3.Or([self.equal(it, item) for it in o.items] + [z3.BoolVal(False)])
+            if isinstance(o, HRec):
+                k = self.const_str(item)
+                if k is None:
+                    raise OutsideSubset("in record with symbolic key")
+                return z3.BoolVal(k in o.items)
             if isinstance(o, HDict):
                 if isinstance(item, SV) and item.kind in ("str", "val"):
                     return z3.And(ops.tag_is(item, "str"), z3.Select(o.dom, ops.as_str(item)))
@@ -715,6 +742,18 @@ class Exec:
     def e_Tuple(self, n):
         return self.alloc(HTuple([self.eval(e) for e in n.elts], is_tuple=True))
 
+    def e_Dict(self, n):
+        items = {}
+        for k, v in zip(n.keys, n.values):
+            if not (isinstance(k, ast.Constant) and isinstance(k.value, str)):
+                raise OutsideSubset("dict literal with non-constant key")
+            items[k.value] = self.eval(v)
+        if not items:
+            hook = getattr(self, "empty_dict_hook", None)
+            if hook:
+                return hook()
+        return self.alloc(HRec(items))
+
     def e_JoinedStr(self, n):
         parts = []
         for v in n.values:
@@ -745,6 +784,13 @@ class Exec:
             return self.slice(base, lo, hi)
         idx = self.eval(n.slice)
         return self.index(base, idx)
+
+    def const_str(self, v):
+        if isinstance(v, SV) and v.kind == "str":
+            t = z3.simplify(v.term)
+            if z3.is_string_value(t):
+                return t.as_string()
+        return None
 
     def norm_index(self, idx, length):
         """python index normalisation for a possibly negative int"""
@@ -786,6 +832,15 @@ class Exec:
                 i = ops.as_int(idx)
                 self.maybe_raise(z3.Or(i >= ln, i < -ln), "IndexError", "list index")
                 return ops.elem_sv(o.elem, o.seq[self.norm_index(idx, ln)])
+            if isinstance(o, HRec):
+                key = self.const_str(idx)
+                if key is None:
+                    raise OutsideSubset("record key must be a constant string")
+                if key not in o.items:
+                    if self.spec_mode:
+                        raise OutsideSubset(f"record has no key {key}")
+                    raise PyRaise("KeyError", key)
+                return o.items[key]
             if isinstance(o, HDict):
                 if isinstance(idx, SV) and idx.kind in ("str", "val"):
                     k = ops.as_str(idx)
@@ -959,7 +1014,7 @@ class Exec:
                 return z3.BoolVal(cname == "list")
             if isinstance(o, HTuple):
                 return z3.BoolVal(cname == ("tuple" if o.is_tuple else "list"))
-            if isinstance(o, HDict):
+            if isinstance(o, (HDict, HRec)):
                 return z3.BoolVal(cname == "dict")
             if isinstance(o, HObj):
                 if o.cf is not None:
@@ -1262,7 +1317,8 @@ class Exec:
                 kind = nm.split("_")[1]
                 names = [a.arg for a in lam.args.args]
                 consts = [z3.Const(fresh_name(x), srt) for x in names]
-                saved = dict(self.bound)
+                saved = self.bound
+                self.bound = dict(saved)
                 for x, c in zip(names, consts):
                     self.bound[x] = SV(kind, c)
                 try:
@@ -1300,11 +1356,25 @@ class Exec:
                 return B(z3.BoolVal(isinstance(v, Ref) and v.oid not in self.old_state["heap"]))
             if nm == "ghost":
                 return self.ghost[n.args[0].value]
+            if nm in ("ufun_bool", "ufun_val", "ufun_int", "ufun_str"):
+                fname = n.args[0].value
+                vals = [self.eval(a) for a in n.args[1:]]
+                rs = {"bool": z3.BoolSort(), "val": Val, "int": z3.IntSort(), "str": z3.StringSort()}[nm.split("_")[1]]
+                f = z3.Function("spec_" + fname, *([Val] * len(vals) + [rs]))
+                t = f(*[ops.to_val(v) for v in vals])
+                k = nm.split("_")[1]
+                return ops.from_val(t) if k == "val" else SV(k, t)
+            if nm in getattr(self.contract, "opaque", ()):
+                vals = [self.eval(a) for a in n.args]
+                if not all(isinstance(v, SV) for v in vals):
+                    raise OutsideSubset("opaque macro over references")
+                f = z3.Function("opq_" + nm, *([Val] * len(vals) + [z3.BoolSort()]))
+                return SV("bool", f(*[ops.to_val(v) for v in vals]))
             if nm in self.contract.macros or nm in getattr(self, "extra_macros", {}):
                 params, body = (self.contract.macros.get(nm) or self.extra_macros[nm])
                 vals = [self.eval(a) for a in n.args]
-                saved = dict(self.bound)
-                self.bound.update(dict(zip(params, vals)))
+                saved = self.bound
+                self.bound = {**saved, **dict(zip(params, vals))}
                 try:
                     return self.eval(ast.parse(body, mode="eval").body)
                 finally:
@@ -1330,6 +1400,10 @@ class Exec:
                 return z3.And([self.same_value(x, y) for x, y in zip(ha.items, hb.items)] + [z3.BoolVal(True)])
             if isinstance(ha, HDict) and isinstance(hb, HDict):
                 return z3.And(ha.arr == hb.arr, ha.dom == hb.dom)
+            if isinstance(ha, HRec) and isinstance(hb, HRec):
+                if set(ha.items) != set(hb.items):
+                    return z3.BoolVal(False)
+                return z3.And([self.same_value(ha.items[k], hb.items[k]) for k in ha.items] + [z3.BoolVal(True)])
             return z3.BoolVal(a.oid == b.oid)
         return z3.BoolVal(False)
 
@@ -1343,6 +1417,10 @@ class Exec:
                 return self.alloc(c)
             if isinstance(o, HTuple):
                 c = HTuple([self.freeze_old(it) for it in o.items], o.is_tuple)
+                c.orig = v.oid
+                return self.alloc(c)
+            if isinstance(o, HRec):
+                c = HRec({k: self.freeze_old(it) for k, it in o.items.items()})
                 c.orig = v.oid
                 return self.alloc(c)
         return v
@@ -1474,6 +1552,9 @@ class Exec:
                     o.items[t.as_long()] = v
                     self.written_paths.add(("heap", base.oid))
                     return
+            if isinstance(o, HRec) and self.const_str(idx) is not None:
+                o.items[self.const_str(idx)] = v
+                return
             if isinstance(o, HDict) and isinstance(idx, SV) and idx.kind in ("str",) and isinstance(v, SV):
                 o.arr = z3.Store(o.arr, idx.term, ops.to_val(v))
                 o.dom = z3.Store(o.dom, idx.term, True)
@@ -1674,6 +1755,9 @@ class Exec:
             if isinstance(o, HTuple):
                 o.items = [self.havoc_value(it, f"{label}.{i}") for i, it in enumerate(o.items)]
                 return v
+            if isinstance(o, HRec):
+                o.items = {k: self.havoc_value(it, f"{label}.{k}") for k, it in o.items.items()}
+                return v
             if isinstance(o, HDict):
                 o.arr = z3.Const(fresh_name(label + "!arr"), o.arr.sort())
                 o.dom = z3.Const(fresh_name(label + "!dom"), o.dom.sort())
@@ -1769,7 +1853,7 @@ class Exec:
 
     def retype_after_havoc(self, base, attr, nv):
         obj = self.heap[base.oid]
-        typ = self.types_lookup(f"{obj.path}.{attr}")
+        typ = self.types_lookup(f"{obj.path}.{attr}", obj, attr)
         if typ in TYPE_TAGS and isinstance(nv, SV) and nv.kind == "val":
             self.pc.append(z3.Or([ops.tag_is(SV("val", nv.term), tg) for tg in TYPE_TAGS[typ]]))
             obj.fields[attr] = ops.V(nv.term, TYPE_TAGS[typ])
@@ -1817,6 +1901,7 @@ class CalleeView:
         # evaluate callee clauses in an environment where the callee's parameter names are bound
         saved_locals, saved_contract, saved_old = ex.locals, ex.contract, ex.old_state
         saved_bound = ex.bound
+        ex.bound = {}
         ex.locals = dict(self.env)
         ex.contract = _merged_types(saved_contract, cc)
         try:
@@ -1843,18 +1928,15 @@ class CalleeView:
             # exceptional exits
             if conds:
                 rc = [c for _, c in conds]
-                none_raised = z3.Not(z3.Or(rc))
-                exact = all((isinstance(s, dict) and s.get("exact", True)) for s in cc.raises.values())
-                alts = [none_raised] + rc if exact else [z3.BoolVal(True)] + rc
-                if exact:
-                    # conditions may overlap; make them exclusive by order
-                    excl, seen = [], z3.BoolVal(False)
-                    for c in rc:
-                        excl.append(z3.And(c, z3.Not(seen)))
+                is_exact = [(not isinstance(s, dict)) or s.get("exact", True) for s in cc.raises.values()]
+                # normal continuation: none of the EXACT conditions holds (a non-exact clause only permits the raise)
+                none_raised = z3.Not(z3.Or([c for c, e in zip(rc, is_exact) if e] + [z3.BoolVal(False)]))
+                excl, seen = [], z3.BoolVal(False)
+                for c, e in zip(rc, is_exact):
+                    excl.append(z3.And(c, z3.Not(seen)))
+                    if e:
                         seen = z3.Or(seen, c)
-                    k = ex.fork([none_raised] + excl)
-                else:
-                    raise OutsideSubset("non-exact raises in callee contract")
+                k = ex.fork([none_raised] + excl)
                 if k > 0:
                     exc = conds[k - 1][0]
                     for cl, e in cc.ensures_exc.items():
@@ -1868,7 +1950,7 @@ class CalleeView:
 
     def havoc_path(self, p):
         ex = self.ex
-        node = ast.parse(p, mode="eval").body
+        node = ast.parse(path_expr(p), mode="eval").body
         saved = ex.spec_mode
         ex.spec_mode = True
         try:
@@ -1882,7 +1964,7 @@ class CalleeView:
             finally:
                 ex.spec_mode = saved
             if isinstance(cur, SV):
-                typ = self.cc.types.get(p)
+                typ = self.cc.types.get(p) or ex.types_lookup(p, ex.heap[base.oid], node.attr)
                 nv = ex.mk(typ, fresh_name(p)) if typ else ex.havoc_value(cur, p)
                 ex.heap[base.oid].fields[node.attr] = nv
                 ex.written_paths.add(f"{ex.heap[base.oid].path}.{node.attr}")
@@ -1901,8 +1983,24 @@ def _merged_types(outer: Contract, inner: Contract):
     ea = dict(outer.extra_attrs)
     ea.update(inner.extra_attrs)
     m.extra_attrs = ea
+    cf = {k: dict(v) for k, v in outer.class_fields.items()}
+    for k, v in inner.class_fields.items():
+        cf.setdefault(k, {}).update(v)
+    m.class_fields = cf
     m.inline = list(outer.inline)
+    m.opaque = list(outer.opaque)
     return m
+
+
+def path_expr(path):
+    """'self.children.0.name' -> 'self.children[0].name'  (names of fixed[...] elements use dotted digits)"""
+    out = []
+    for seg in path.split("."):
+        if seg.isdigit() and out:
+            out[-1] = out[-1] + f"[{seg}]"
+        else:
+            out.append(seg)
+    return ".".join(out)
 
 
 def _split_top(s):
